@@ -120,7 +120,13 @@ def build_trees(base: Path):
         "BUILD": "def rule(a):\n    return a\n", "Makefile": "all:\n\techo hi\n", "LICENSE": "text\n", "pkg/BUILD.bazel": "def r2(a):\n    return a\n",
         "pkg/WORKSPACE.bazel": "x = 1\n", "pkg/SConstruct": "def s(a):\n    return a\n", "pkg/Dockerfile": "FROM x\n",
         # configured exclusions with a re-include: the order of the patterns matters (last match wins)
-        ".codelimit.yml": "exclude:\n  - \"generated/*\"\n  - \"!generated/api.py\"\n  - \"proto/*\"\n  - \"!proto/message_pb2.py\"\n  - \"zz\"\n  - \"!zz/last.ts\"\n",
+        ".codelimit.yml": "exclude:\n  - \"generated/*\"\n  - \"!generated/api.py\"\n  - \"proto/*\"\n  - \"!proto/message_pb2.py\"\n  - \"zz\"\n  - \"!zz/last.ts\"\n"
+                          "  - \"docs/examples\"\n  - \"lib/x/samples/\"\n",
+        # one directory name at several places, excluded (by an anchored pattern) at one of them only: whichever of them the
+        # walk reaches first, the others must still be scanned
+        "docs/examples/demo.py": tree.flat_file("Python", [4]), "src/examples/demo.py": tree.flat_file("Python", [5]), "aa/examples/e.js": tree.flat_file("JavaScript", [3]),
+        "zz/examples/e.c": tree.flat_file("C", [3]), "lib/x/samples/s.py": tree.flat_file("Python", [2]), "samples/s.py": tree.flat_file("Python", [3]),
+        "src/samples/t.java": tree.flat_file("Java", [4]),
         # several hidden folders side by side (none of them in the built-in exclusions), each holding supported files
         ".storybook/main.js": tree.flat_file("JavaScript", [4]), ".husky/hook.py": tree.flat_file("Python", [3]), ".a/x.py": tree.flat_file("Python", [2]),
         ".b/y.c": tree.flat_file("C", [2]), ".c/z.java": tree.flat_file("Java", [2]), "src/.h1/a.py": "x = 1\n", "src/.h2/b.py": tree.flat_file("Python", [5]),
